@@ -71,6 +71,13 @@ func main() {
 		w.Flush()
 		js, _ := json.Marshal(st)
 		os.WriteFile(os.Args[4], js, 0o644)
+	case "sweep":
+		// harness sweep <n> <shard> <nshards> [tracked residues…]
+		if len(os.Args) < 5 {
+			fmt.Fprintln(os.Stderr, "usage: harness sweep <n> <shard> <nshards> [residue…]")
+			os.Exit(3)
+		}
+		sweep(os.Args[2:])
 	default:
 		fmt.Fprintln(os.Stderr, "unknown mode", os.Args[1])
 		os.Exit(3)
